@@ -20,6 +20,10 @@ IntVals == {-1, 0, 1, 2, 3}
 JTab == <<"-9223372036854775807", "-5000000000000000000", "-257", "-256", "-1", "0", "1", "255", "256", "65535",
           "5000000000000000000", "9223372036854775807">>
 JVals == 1..Len(JTab)
+\* an array field a: [Int!], as ranks into a table of small arrays (never null; elements never null)
+ATab == << <<>>, <<0>>, <<1>>, <<2>>, <<0, 1>>, <<1, 1>>, <<1, 2>>, <<2, 0, 1>> >>
+AVals == 1..Len(ATab)
+Elems(r) == {ATab[r][i] : i \in 1..Len(ATab[r])}
 BoolVals == {0, 1}
 FieldsOf == [s |-> StrVals, i |-> IntVals, b |-> BoolVals, j |-> JVals]
 Fields == {"s", "i", "b", "j"}
@@ -35,6 +39,8 @@ LikeSet(p) == CASE p = "a%" -> {2, 3} [] p = "%b" -> {3, 4} [] p = "%a%" -> {2, 
 (*   [t |-> "cmp",  f, op \in {_eq,_ne,_gt,_ge,_lt,_le}, v]                 *)
 (*   [t |-> "in",   f, op \in {_in,_nin}, vs]                               *)
 (*   [t |-> "like", f = "s", op \in {_like,_nlike}, p]                      *)
+(*   [t |-> "arr",  f = "a", q \in {_any,_all,_none}, op, v]: the comparison *)
+(*      holds for some / every / no element of the array                    *)
 (*   [t |-> "and"/"or", args], [t |-> "not", arg], [t |-> "multi", args]    *)
 (*   ("multi" = several fields in one filter object: implicit AND)          *)
 Cmp(op, x, v) ==
@@ -44,6 +50,9 @@ Cmp(op, x, v) ==
     [] op = "_ge" -> x # NULL /\ x >= v
     [] op = "_lt" -> x # NULL /\ x < v
     [] op = "_le" -> x # NULL /\ x <= v
+ArrMatch(flt, E) == CASE flt.q = "_any"  -> \E e \in E : Cmp(flt.op, e, flt.v)
+                       [] flt.q = "_all"  -> \A e \in E : Cmp(flt.op, e, flt.v)
+                       [] flt.q = "_none" -> ~\E e \in E : Cmp(flt.op, e, flt.v)
 RECURSIVE Match(_, _)
 Match(flt, d) ==
   CASE flt.t = "true" -> TRUE
@@ -51,6 +60,7 @@ Match(flt, d) ==
     [] flt.t = "in"   -> IF flt.op = "_in" THEN d[flt.f] \in flt.vs ELSE d[flt.f] \notin flt.vs
     [] flt.t = "like" -> IF flt.op = "_like" THEN d.s # NULL /\ d.s \in LikeSet(flt.p)
                                              ELSE d.s = NULL \/ d.s \notin LikeSet(flt.p)
+    [] flt.t = "arr"  -> ArrMatch(flt, Elems(d.a))
     [] flt.t \in {"and", "multi"} -> \A k \in 1..Len(flt.args) : Match(flt.args[k], d)
     [] flt.t = "or"   -> \E k \in 1..Len(flt.args) : Match(flt.args[k], d)
     [] flt.t = "not"  -> ~Match(flt.arg, d)
@@ -102,7 +112,7 @@ Result(docs, q) ==
           keys |-> [k \in 1..Len(sl) |-> KeyTuple(sl[k], q.order)],
           ids |-> IF q.limit = 0 /\ q.offset = 0 THEN {d.id : d \in F} ELSE {},
           from |-> {d.id : d \in F}]
-    [] q.kind = "agg" -> [value |-> Agg(q.fn, F, q.af)]
+    [] q.kind = "agg" -> [value |-> Agg(q.fn, F, q.af), from |-> {d.id : d \in F}]
     [] q.kind = "group" ->
          LET Size(v) == Cardinality({d \in F : d[q.gf] = v})
              \* number of group members inside the window _group(limit: gl, offset: go)
@@ -110,5 +120,6 @@ Result(docs, q) ==
          IN [groups |-> {[key |-> v,
                           count |-> Size(v),
                           wcount |-> Win(Size(v)),
-                          sum |-> SumF(NonNull({d \in F : d[q.gf] = v}, "i"), "i")] : v \in {d[q.gf] : d \in F}}]
+                          sum |-> SumF(NonNull({d \in F : d[q.gf] = v}, "i"), "i")] : v \in {d[q.gf] : d \in F}},
+             from |-> {d.id : d \in F}]
 =============================================================================
